@@ -454,6 +454,7 @@ def mutate_for_selftest(tr):
 def run(tier, seed):
     ck = check.Check(PID, tier, seed, "model_checking")
     quick = tier == "quick"
+    t0 = time.time()
     # 1. exhaustive model checking, scaled constants
     r = tlc.run("LlcpDlc.tla", "MC_LlcpDlc.cfg" if quick else "MC_LlcpDlc_thorough.cfg", PID,
                 workers=16, timeout=900 if quick else 1500)
@@ -508,10 +509,15 @@ def run(tier, seed):
             replay=dict(kind="trace", **cfgs[tr["id"]]))
     ck.cover(traces_validated_against_impl=acc, trace_events=nev, trace_states=st["states"],
              binding_selftest="corrupted N(R) and dropped Deliver both rejected")
+    t1 = time.time()
     exhaustive_stage(ck, quick, seed)
+    t2 = time.time()
     threaded_stage(ck, quick, seed)
+    t3 = time.time()
     from bind import c05conn
     c05conn.stage(ck, quick, seed, tlc, PID)
+    ck.cover(seconds_mc_and_random_walks=int(t1 - t0), seconds_short_histories=int(t2 - t1), seconds_threaded=int(t3 - t2),
+             seconds_conn=int(time.time() - t3))
     ck.sample(dict(trace=traces[0]["id"], const=traces[0]["const"], first_events=traces[0]["ev"][:6]))
     ck.sample(dict(mc="LlcpDlc M=4", depth=r.depth, distinct=r.distinct))
     ck.assume("non-threaded binding: application calls use MSG_DONTWAIT and are interleaved with collect()/dispatch() by the harness",
